@@ -292,17 +292,25 @@ pub fn dupmode(tier: Tier, w: &Arc<World>) -> Scn {
     }
     let mut fc = FaultCfg::default();
     if d.chance("swarm.net_dup", 1, 3) {
-        fc.fate_w = [20, 0, 3, 1, 0, 0];
+        // duplicates and reordering, and now and then a loss (a timeout retransmission is an emission too)
+        fc.fate_w = [20, if d.chance("swarm.net_drop", 1, 2) { 2 } else { 0 }, 3, 1, 0, 0];
         fc.spare_requests = true;
+        fc.after_first_data = true;
         fc.budget = 1 + d.range("swarm.fault.budget", 4);
+    }
+    if !upload && !oc.opts.is_empty() && d.chance("swarm.bad_oack_ack", 1, 12) {
+        // a confused client acknowledges the OACK with a non-zero block number: the server complains once
+        xc.bad_oack_ack = Some(d.pick("swarm.bad_oack_ack.k", &[5u16, 1, 65535]));
     }
     let faultfree = fc.budget == 0;
     set_faults(w, fc);
-    let desc = format!("N={n} {} {} len={len} opts={:?} eager_reack={} per_block={}", srv.describe(), if upload { "upload" } else { "download" }, oc.opts, xc.eager_reack, xc.per_block_ack);
+    let xc_bad_oack = xc.bad_oack_ack;
+    let desc = format!("N={n} {} {} len={len} opts={:?} eager_reack={} per_block={} bad_oack_ack={:?}", srv.describe(), if upload { "upload" } else { "download" }, oc.opts, xc.eager_reack, xc.per_block_ack, xc_bad_oack);
     let kind = if upload { Kind::Upload } else { Kind::Download };
     let (peer, client) = if upload { w.add_peer(Box::new(Writer::new(xc, data.to_vec())), false, 0) } else { w.add_peer(Box::new(Reader::new(xc)), false, 0) };
     // the peer's timer is three server timeouts long: one reordering can cost three failed receives
-    let spec = XferSpec { client, peer, kind, content: data, path, conformant: true, dally: true, timeout_ratio: 3 };
+    let conformant = xc_bad_oack.is_none();
+    let spec = XferSpec { client, peer, kind, content: data, path, conformant, dally: true, timeout_ratio: 3 };
     w.add_monitor(Box::new(DupMon::new(n)));
     w.add_monitor(Box::new(XferMon::new("C16", Rules { c01: true, c02: true, c04: true, c08: true, ..Default::default() }, vec![spec], n)));
     boot_server(w, &srv).expect("server config");
@@ -460,6 +468,7 @@ pub fn isolation(tier: Tier, w: &Arc<World>) -> Scn {
     srv.v6 = d.chance("swarm.ipv6", 1, 8);
     srv.keep_on_error = d.chance("swarm.flag.keep_on_error", 1, 6);
     srv.overwrite = d.chance("swarm.flag.overwrite", 1, 4);
+    srv.arg_rot = d.range("swarm.arg_rotation", 8) as usize;
     let kmax = if tier == Tier::Thorough { 15 } else { 7 };
     let k = 2 + d.range("swarm.clients", kmax) as usize;
     let mut fc = FaultCfg::default();
@@ -560,7 +569,7 @@ pub fn isolation(tier: Tier, w: &Arc<World>) -> Scn {
         for _ in 0..m {
             let bytes = match d.range("intruder.kind", 5) {
                 0 => rfc::encode(&Pkt::Ack(d.range("intruder.n", 6) as u16)),
-                1 => rfc::encode(&Pkt::Data { n: 1 + d.range("intruder.n", 6) as u16, payload: vec![0x5a; d.pick("intruder.len", &[0usize, 8, 512, 100])] }),
+                1 => rfc::encode(&Pkt::Data { n: 1 + d.range("intruder.n", 6) as u16, payload: vec![0x5a; d.pick("intruder.len", &[0usize, 8, 512, 100, 600, 1024, 2000])] }),
                 2 => rfc::encode(&Pkt::Error { code: d.range("intruder.code", 8) as u16, msg: "intruder".into() }),
                 3 => rfc::encode(&Pkt::Oack(vec![("blksize".into(), "8".into())])),
                 _ => rfc::encode(&Pkt::Ack(65535)),
